@@ -31,6 +31,11 @@ def handle : Handler := fun op args impl =>
     | some g =>
       let m := if g.2.all (pure fns) then "same" else "changed"
       some ⟨m, verdictOf (impl == "same") "query-modified-its-input"⟩
+  | "aliassplit", [_, _, _] =>
+    if impl == "na" then some ⟨"na", "na"⟩ else
+    let good := "split-pure=1 parts-ok=1 shared=0 orig-unchanged=1"
+    let m := if ownsData fns "align" "Split" && pure fns "Split" then good else "facts-say-shared-or-impure"
+    some ⟨m, verdictOf (impl == good) "split-writes-into-or-shares-data-with-its-input"⟩
   | "alias", [_, _, c] =>
     match copyRecv.find? (·.1 == c) with
     | none => some ⟨"bad-op", "na"⟩
